@@ -282,7 +282,13 @@ pub fn run(tier: &str, seed: u64) -> i32 {
         vault_balance(&w, &roots[0].h)
     };
     let amounts: Vec<u128> = if quick { vec![1000, bal, bal + 1] } else { vec![1, 999, 1000, 1_000_000, bal, bal + 1] };
-    let mut all = scripts(2, if quick { 1 } else { 2 }, &[1000, 300_000]);
+    // quick: length<=2 scripts whose nested loans carry sub-scripts of length<=2 (one nested amount);
+    // thorough: two nested amounts, plus length-3 scripts below
+    let mut all = if quick { scripts(2, 2, &[1000]) } else { scripts(2, 2, &[1000, 300_000]) };
+    if quick {
+        // the second nested amount with shallow sub-scripts
+        all.extend(scripts(2, 1, &[300_000]).into_iter().filter(|s| s.iter().any(|x| matches!(x, Step::Nested { .. }))));
+    }
     if !quick {
         // depth-3 scripts over the base alphabet + nested loans with sub-scripts of length <= 1
         let extra = scripts(3, 1, &[1000]);
